@@ -73,6 +73,9 @@ class Shot(EnableDisableMixin, ModeDevice):
         """
         super().device_loaded_in_mode(mode, player)
         self._update_show()
+        # the state is kept per player: tell subscribers of the monitored attributes what this player has
+        self.notify_virtual_change("state", None, self.state)              # type: ignore
+        self.notify_virtual_change("state_name", None, self.state_name)    # type: ignore
 
     def validate_and_parse_config(self, config: dict, is_mode_config: bool, debug_prefix: str = None):
         """Validate and parse shot config."""
